@@ -324,6 +324,7 @@ class StageResult:
 def run_range(exe, margs, lo, hi, env, res, lock, timeout, label, prefix=(), requeue=None):
     """run cases lo..hi in one or more worker processes, restarting after a death"""
     cur = lo
+    slow_retries = {}
     while cur < hi:
         cmd = list(prefix) + [exe] + margs + ["--from", str(cur), "--to", str(hi)]
         errf = os.path.join(os.path.dirname(exe), "stderr.%d.%d" % (os.getpid(), threading.get_ident()))
@@ -406,6 +407,13 @@ def run_range(exe, margs, lo, hi, env, res, lock, timeout, label, prefix=(), req
                 res.harness_failures.append("%s: %s" % (label, err.strip()[-500:]))
             return
         # died
+        if open_ev is None and killed[0] and slow_retries.get(cur, 0) < 2:
+            # the watchdog fired while no case was open: the (deterministic) generator / model of case `cur` was slower than the
+            # per-case limit, which happens for the largest thorough shapes on a loaded machine.  Not a verdict about the library:
+            # try the same case again with a longer limit before calling it a harness failure.
+            slow_retries[cur] = slow_retries.get(cur, 0) + 1
+            timeout = timeout * 3
+            continue
         if open_ev is None:
             # died outside a case (generator / cleanup): harness failure unless a sanitizer report names the library
             kind = classify_death(rc, err)
@@ -594,7 +602,7 @@ def check(pid, tier, seed):
             res = st["runner"](st, tier, seed, n)
         else:
             prefix = VALGRIND if st.get("valgrind") else ()
-            res = run_stage(st["cfg"], margs, n, seed, timeout=st.get("timeout", 45 if tier == "quick" else 150), extra_env=st.get("env"), nworkers=st.get("workers"), prefix=prefix)
+            res = run_stage(st["cfg"], margs, n, seed, timeout=st.get("timeout", 45 if tier == "quick" else 240), extra_env=st.get("env"), nworkers=st.get("workers"), prefix=prefix)
         st = dict(st)
         st["args"] = margs
         builds.append(st["cfg"])
